@@ -32,6 +32,25 @@ theorem Dirty.of_eq {col col' : Loc → Option Entry} {locs : List Loc} (h : Dir
 theorem mem_append_singleton {α : Type} {a b : α} {l : List α} : a ∈ l ++ [b] ↔ a ∈ l ∨ a = b := by
   simp
 
+theorem mem_eraseIdx_or {α : Type} {x r : α} {l : List α} {k : Nat} (h : x ∈ l) (hk : l[k]? = some r) :
+    x ∈ l.eraseIdx k ∨ x = r := by
+  induction l generalizing k with
+  | nil => simp at h
+  | cons a t ih =>
+    cases k with
+    | zero =>
+      simp at hk; subst hk
+      rcases List.mem_cons.mp h with h' | h'
+      · exact Or.inr h'
+      · exact Or.inl (by simpa using h')
+    | succ k =>
+      simp at hk
+      rcases List.mem_cons.mp h with h' | h'
+      · left; simp [h']
+      · rcases ih h' hk with h'' | h''
+        · left; simp [h'']
+        · exact Or.inr h''
+
 theorem inv2_step {P : Params} {s s' : State} (h1 : Inv1 P s) (h : Inv2 s) (hs : Step P s s') :
     Inv2 s' := by
   cases hs with
@@ -104,7 +123,7 @@ theorem inv2_step {P : Params} {s s' : State} (h1 : Inv1 P s) (h : Inv2 s) (hs :
       have hph := hj.hist.phase; unfold HistPhase at hph; rw [hp] at hph
       refine ⟨?_, ?_, ⟨?_, ?_, ?_⟩⟩
       · unfold Shape; simp only [updF_same]
-        refine ⟨[], by simp, by simp, ?_⟩
+        refine ⟨[], by simp, by simp, writeLocs_nodup w, by simp, ?_⟩
         intro l _
         refine ⟨fun e he => hsh.1 l e he, fun hn => ?_⟩
         have := hsh.2 l hn
@@ -140,28 +159,46 @@ theorem inv2_step {P : Params} {s s' : State} (h1 : Inv1 P s) (h : Inv2 s) (hs :
         exact ⟨by simp [oldWrites], by simpa [oldLocs] using hsh⟩
       · unfold HistPhase; simp only [setPhase, updF_same]
     · other_tx h j hj
-  | publishOne i run l todo newLoc v hp hv =>
+  | publishOne i run l todo newLoc v hp hl hv =>
     intro j
     by_cases hj : j = i
     · subst hj
       have hj := h j
       have hsh := hj.shape; unfold Shape at hsh; rw [hp] at hsh
       have hph := hj.hist.phase; unfold HistPhase at hph; rw [hp] at hph
-      obtain ⟨done, hdone, hnew, hold⟩ := hsh
+      obtain ⟨done, hmem, hdisj, hnd, hnew, hold⟩ := hsh
+      have hld : l ∉ done := hdisj l hl
       refine ⟨?_, ?_, ⟨hj.hist.le_inc, hj.hist.res, ?_⟩⟩
       · unfold Shape; simp only [updF_same]
-        refine ⟨done ++ [l], by simp [hdone], ?_, ?_⟩
+        refine ⟨l :: done, ?_, ?_, hnd.erase l, ?_, ?_⟩
+        · intro l'
+          rw [hmem l', List.mem_cons, hnd.mem_erase_iff]
+          constructor
+          · rintro (h' | h')
+            · exact Or.inl (Or.inr h')
+            · by_cases hll : l' = l
+              · exact Or.inl (Or.inl hll)
+              · exact Or.inr ⟨hll, h'⟩
+          · rintro ((h' | h') | h')
+            · subst h'; exact Or.inr hl
+            · exact Or.inl h'
+            · exact Or.inr h'.2
+        · intro l' hl' hc
+          rw [hnd.mem_erase_iff] at hl'
+          rcases List.mem_cons.mp hc with h' | h'
+          · exact hl'.1 h'
+          · exact hdisj l' hl'.2 h'
         · intro l' hl'
-          rcases mem_append_singleton.mp hl' with hl' | hl'
-          · by_cases hll : l' = l
-            · subst hll
-              exact ⟨_, setMv_same _ _ _ _, rfl, hv, rfl⟩
-            · rw [setMv_ne_loc _ _ _ _ _ _ hll]; exact hnew l' hl'
-          · subst hl'
+          by_cases hll : l' = l
+          · subst hll
             exact ⟨_, setMv_same _ _ _ _, rfl, hv, rfl⟩
+          · rw [setMv_ne_loc _ _ _ _ _ _ hll]
+            rcases List.mem_cons.mp hl' with h' | h'
+            · exact absurd h' hll
+            · exact hnew l' h'
         · intro l' hl'
-          have hl1 : l' ∉ done := fun hc => hl' (mem_append_singleton.mpr (Or.inl hc))
-          have hl2 : l' ≠ l := fun hc => hl' (mem_append_singleton.mpr (Or.inr hc))
+          have hl1 : l' ∉ done := fun hc => hl' (List.mem_cons_of_mem _ hc)
+          have hl2 : l' ≠ l := fun hc => hl' (hc ▸ List.mem_cons_self)
           rw [setMv_ne_loc _ _ _ _ _ _ hl2]
           have := hold l' hl1
           simpa [oldLocs] using this
@@ -183,8 +220,9 @@ theorem inv2_step {P : Params} {s s' : State} (h1 : Inv1 P s) (h : Inv2 s) (hs :
       have hj := h j
       have hsh := hj.shape; unfold Shape at hsh; rw [hp] at hsh
       have hph := hj.hist.phase; unfold HistPhase at hph; rw [hp] at hph
-      obtain ⟨done, hdone, hnew, hold⟩ := hsh
-      have hdone' : writeLocs run.writes = done := by simpa using hdone
+      obtain ⟨done, hmem, _, _, hnew, hold⟩ := hsh
+      have hdone' : ∀ l, l ∈ writeLocs run.writes ↔ l ∈ done := by
+        intro l; rw [hmem l]; simp
       refine ⟨?_, hj.entry, ⟨hj.hist.le_inc, hj.hist.res, ?_⟩⟩
       · unfold Shape; simp only [setPhase, updF_same]
         refine ⟨?_, ?_, ?_⟩
@@ -201,7 +239,7 @@ theorem inv2_step {P : Params} {s s' : State} (h1 : Inv1 P s) (h : Inv2 s) (hs :
           simpa using hl.2
       · unfold HistPhase; simp only [setPhase, updF_same]; exact hph
     · other_tx h j hj
-  | removeOne i run l todo newLoc hp =>
+  | removeOne i run l todo newLoc hp hl =>
     intro j
     by_cases hj : j = i
     · subst hj
@@ -209,23 +247,20 @@ theorem inv2_step {P : Params} {s s' : State} (h1 : Inv1 P s) (h : Inv2 s) (hs :
       have hsh := hj.shape; unfold Shape at hsh; rw [hp] at hsh
       have hph := hj.hist.phase; unfold HistPhase at hph; rw [hp] at hph
       obtain ⟨hnew, hold, hdisj⟩ := hsh
-      have hl : l ∉ writeLocs run.writes := hdisj l List.mem_cons_self
+      have hlw : l ∉ writeLocs run.writes := hdisj l hl
       refine ⟨?_, ?_, ⟨hj.hist.le_inc, hj.hist.res, ?_⟩⟩
       · unfold Shape; simp only [updF_same]
         refine ⟨?_, ?_, ?_⟩
         · intro l' hl'
-          have hne : l' ≠ l := fun hc => hl (hc ▸ hl')
+          have hne : l' ≠ l := fun hc => hlw (hc ▸ hl')
           rw [setMv_ne_loc _ _ _ _ _ _ hne]; exact hnew l' hl'
         · intro l' hl' e he
           by_cases hne : l' = l
           · subst hne; rw [setMv_same] at he; cases he
           · rw [setMv_ne_loc _ _ _ _ _ _ hne] at he
             have := hold l' hl' e he
-            refine ⟨?_, this.2⟩
-            rcases List.mem_cons.mp this.1 with h' | h'
-            · exact absurd h' hne
-            · exact h'
-        · intro l' hl'; exact hdisj l' (List.mem_cons_of_mem _ hl')
+            exact ⟨(List.mem_erase_of_ne hne).mpr this.1, this.2⟩
+        · intro l' hl'; exact hdisj l' (List.mem_of_mem_erase hl')
       · intro l' e' he'
         dsimp only at he' ⊢
         by_cases hne : l' = l
@@ -317,7 +352,7 @@ theorem inv2_step {P : Params} {s s' : State} (h1 : Inv1 P s) (h : Inv2 s) (hs :
         exact ⟨Nat.le_refl _, fun _ => hph⟩
       · unfold HistPhase; simp only [updF_same]
     · other_tx h j hj
-  | markErrSome i e ow l todo en hp hm =>
+  | markErrSome i e ow l todo en hp hl hm =>
     intro j
     by_cases hj : j = i
     · subst hj
@@ -347,7 +382,7 @@ theorem inv2_step {P : Params} {s s' : State} (h1 : Inv1 P s) (h : Inv2 s) (hs :
         · rw [setMv_ne_loc _ _ _ _ _ _ hne] at he'; exact hj.entry l' e' he'
       · unfold HistPhase; simp only [updF_same]
     · other_tx h j hj
-  | markErrNone i e ow l todo hp hm =>
+  | markErrNone i e ow l todo hp hl hm =>
     intro j
     by_cases hj : j = i
     · subst hj
@@ -358,7 +393,7 @@ theorem inv2_step {P : Params} {s s' : State} (h1 : Inv1 P s) (h : Inv2 s) (hs :
         exact ⟨by simpa [oldWrites] using hsh.1, by simpa [oldLocs] using hsh.2⟩
       · unfold HistPhase; simp only [setPhase, updF_same]
     · other_tx h j hj
-  | markValSome i l todo en hp hm =>
+  | markValSome i l todo en hp hl hm =>
     intro j
     by_cases hj : j = i
     · subst hj
@@ -375,9 +410,7 @@ theorem inv2_step {P : Params} {s s' : State} (h1 : Inv1 P s) (h : Inv2 s) (hs :
           · rw [setMv_ne_loc _ _ _ _ _ _ hne] at he'
             refine ⟨(hsome l' e' he').1, fun hnt => (hsome l' e' he').2 ?_⟩
             intro hc
-            rcases List.mem_cons.mp hc with h' | h'
-            · exact hne h'
-            · exact hnt h'
+            exact hnt ((List.mem_erase_of_ne hne).mpr hc)
         · intro l' hn
           by_cases hne : l' = l
           · subst hne; rw [setMv_same] at hn; cases hn
@@ -390,7 +423,7 @@ theorem inv2_step {P : Params} {s s' : State} (h1 : Inv1 P s) (h : Inv2 s) (hs :
         · rw [setMv_ne_loc _ _ _ _ _ _ hne] at he'; exact hj.entry l' e' he'
       · unfold HistPhase; simp only [updF_same]
     · other_tx h j hj
-  | markValNone i l todo hp hm =>
+  | markValNone i l todo hp hl hm =>
     intro j
     by_cases hj : j = i
     · subst hj
@@ -403,9 +436,9 @@ theorem inv2_step {P : Params} {s s' : State} (h1 : Inv1 P s) (h : Inv2 s) (hs :
         intro l' e' he'
         refine ⟨(hsome l' e' he').1, fun hnt => (hsome l' e' he').2 ?_⟩
         intro hc
-        rcases List.mem_cons.mp hc with h' | h'
-        · subst h'; rw [hm] at he'; cases he'
-        · exact hnt h'
+        by_cases hne : l' = l
+        · subst hne; rw [hm] at he'; cases he'
+        · exact hnt ((List.mem_erase_of_ne hne).mpr hc)
       · unfold HistPhase; simp only [setPhase, updF_same]
     · other_tx h j hj
   | endErrMark i e ow hp =>
@@ -475,7 +508,7 @@ theorem inv2_step {P : Params} {s s' : State} (h1 : Inv1 P s) (h : Inv2 s) (hs :
       · unfold Shape; simp only [updF_same]; exact ⟨r, hr, hok, hcl, by simp⟩
       · unfold HistPhase; simp only [updF_same]
     · other_tx h j hj
-  | valCheck i ts done r todo conflict hp =>
+  | valCheck i ts done r todo conflict k hp hk =>
     intro j
     by_cases hj : j = i
     · subst hj
@@ -484,7 +517,19 @@ theorem inv2_step {P : Params} {s s' : State} (h1 : Inv1 P s) (h : Inv2 s) (hs :
       obtain ⟨r', hr', hok, hcl, hrd⟩ := hsh
       refine ⟨?_, hj.entry, ⟨hj.hist.le_inc, hj.hist.res, ?_⟩⟩
       · unfold Shape; simp only [setPhase, updF_same]
-        exact ⟨r', hr', hok, hcl, by simpa using hrd⟩
+        refine ⟨r', hr', hok, hcl, ?_⟩
+        intro x
+        rw [hrd x, List.mem_cons]
+        constructor
+        · rintro (h' | h')
+          · exact Or.inl (Or.inr h')
+          · rcases mem_eraseIdx_or h' hk with h'' | h''
+            · exact Or.inr h''
+            · exact Or.inl (Or.inl h'')
+        · rintro ((h' | h') | h')
+          · subst h'; exact Or.inr (List.mem_of_getElem? hk)
+          · exact Or.inl h'
+          · exact Or.inr (List.mem_of_mem_eraseIdx h')
       · unfold HistPhase; simp only [setPhase, updF_same]
     · other_tx h j hj
   | endScanConflict i ts done hp =>
